@@ -177,6 +177,38 @@ theorem C19_services_declared (c : Config) (st : State) (h : build c = .ok st)
     refine ⟨f, ⟨by simp, ?_⟩, hd⟩
     rw [hn]; exact ha
 
+/-- Order-free form: when no file name is contested, the service list is — up to order — the
+services of one copy of every registered file (a file registered twice is listed once). -/
+theorem C19_services_exactly_declared (c : Config) (st : State) (h : build c = .ok st)
+    (hch : c.chosen = none) (hu : ∀ f ∈ c.files, Unconflicted c.files f) :
+    ∃ l, respond st .listServices = .ok (.services l) ∧
+      l.Perm ((served c.files).flatMap serviceNames) :=
+  ⟨_, (C19_services_declared c st h hch).1,
+    (served_perm (procFiles_perm c) hu).flatMap_right serviceNames⟩
+
+/-- Why the service does not build, when it does not: a registered byte string prost rejects
+(reported as `DecodeError`, before anything else) or a missing name. -/
+theorem C19_build_error_cause (c : Config) (e : Err) (h : build c = .error e) :
+    (e = .decode ↔ c.decodable = false) ∧
+    (c.decodable = false ∨ ∃ f ∈ c.files, File.wellNamed f = false) := by
+  by_cases hd : c.decodable = true
+  · have hnw : ∃ f ∈ c.files, File.wellNamed f = false := by
+      apply Classical.byContradiction
+      intro hno
+      have hw : ∀ f ∈ c.files, File.wellNamed f = true := fun f hf => by
+        cases hwf : File.wellNamed f with
+        | true => rfl
+        | false => exact absurd ⟨f, hf, hwf⟩ hno
+      obtain ⟨st, hst⟩ := C19_build_succeeds c hd hw
+      rw [h] at hst; cases hst
+    refine ⟨⟨fun he => ?_, fun hf => by rw [hd] at hf; cases hf⟩, Or.inr hnw⟩
+    subst he
+    rw [build_eq, if_pos hd] at h
+    exact absurd h (addFiles_not_decode _ _)
+  · have hd' : c.decodable = false := by simpa using hd
+    rw [build_eq, if_neg hd] at h
+    exact ⟨⟨fun _ => hd', fun _ => by cases h; rfl⟩, Or.inl hd'⟩
+
 /-- The service list when services were chosen explicitly: exactly the chosen names, in call
 order, whatever was registered. -/
 theorem C19_services_chosen (c : Config) (st : State) (h : build c = .ok st) (l : List Name)
